@@ -127,6 +127,12 @@ def monitor(rep, case, impl, model, payload):
 def run(rep, tier, seed, replay):
     extra = [(15, ("none", 0), [PE.I(b"w:1e19|c"), "G", PE.I(b"w:1e19|c"), "G"], dict(nbig=2, scale="None", scale_value=None)),
              (15, ("none", 0), [PE.I(b"n:1|c"), "G", PE.I(b"n:NaN|c"), "G", PE.I(b"n:1|c|@nan"), "G", PE.I(b"n:-1|c|@-1"), "G"], dict(nbig=0, scale="None", scale_value=None))]
+    # a counter created without a ttl that receives one later, when it is already older than that ttl: its next sample must not reset it
+    for first_ttl, mode in ((0, "rule"), (0, "defaults"), (3600 * 10**9, "rule")):
+        def cfg(ttl):
+            return (GM.defaults(ttl=ttl) if mode == "defaults" else None, [GM.rule(b"c.*", b"c_$1", help=b"r0", ttl=(ttl if mode == "rule" else 0))])
+        extra.append((15, ("none", 0), [GM.load_op(cfg(first_ttl)), PE.I(b"c.a:3|c"), "G", "A 100000000000", GM.load_op(cfg(5 * 10**9)), PE.I(b"c.a:1|c"), "G", "A 1000000000", "S", "G",
+                                        PE.I(b"c.a:1|c"), "G", "A 1000000000", "S", "G"], dict(nbig=0, scale="None", scale_value=None)))
     PC.run(rep, "C06", tier, seed, replay, gen_case, monitor, 700, 40000,
            "%(n)d counter histories of 3-20 lines with values and sampling rates from finite, negative, signed-zero, huge (2^63, 2^64-1, 1e19, 1e308), denormal, "
            "Inf and NaN spellings and rule scale factors incl. 0, -0, negative, NaN, +-Inf; value observed at every prefix; non-trivial = history in which some "
